@@ -41,10 +41,12 @@ AstOf(e) == IF e.ast.k = "chainl" THEN ChainL(e.ast.op, e.ast.xs, Len(e.ast.xs))
 \* an operator applied to two scalar values returns a value or an error value even where the specification leaves open
 \* which (C07: "never raise a Python exception") - e.g. a concatenation longer than any cell of Excel holds
 ScalarT == {"num", "txt", "bool", "blank", "date", "err"}
+\* (numbers outside the short rationals - "float" - count for & and the comparisons, which cannot leave the double range)
+ScalarFor(op) == IF op \in {"&", "=", "<>", "<", ">", "<=", ">="} THEN ScalarT \cup {"float"} ELSE ScalarT
 TotalOp(e) == LET a == Erase(AstOf(e)) IN
               /\ a.k = "bin"
-              /\ Eval(a.l, e.sheet, WbOf(e)).t \in ScalarT
-              /\ Eval(a.r, e.sheet, WbOf(e)).t \in ScalarT
+              /\ Eval(a.l, e.sheet, WbOf(e)).t \in ScalarFor(a.op)
+              /\ Eval(a.r, e.sheet, WbOf(e)).t \in ScalarFor(a.op)
 Verdict(e, x) ==
     IF x.t \in {"open", "ref"} THEN (IF e.res.t = "exc" /\ TotalOp(e) THEN "python-exception" ELSE "open")
     ELSE IF Agrees(e.res, x) THEN (IF "stored" \in DOMAIN e /\ ~Agrees(e.stored, x) THEN "stored-value-differs" ELSE "ok")
